@@ -264,7 +264,9 @@ fn gen_case(rng: &mut Rng, out: &mut Out, tier: &str) {
             72..=77 => "ev cancel_orders none".into(),
             78..=81 => format!("ev close_positions ins:{i}"),
             82..=88 => {
-                if has_pos[i] {
+                if has_pos[i] && rng.chance(40) {
+                    format!("ev reduce {i}")
+                } else if has_pos[i] {
                     has_pos[i] = false;
                     format!("ev flat {i}")
                 } else {
